@@ -770,6 +770,18 @@ func TestDriver(t *testing.T) {
 				if !res.Accepted && (strings.Contains(res.Err, "address already in use") || strings.Contains(res.Err, "bind:")) {
 					res = w.runSystem(c) // port race with a parallel shard: once more with fresh ports
 				}
+				if res.Accepted && res.Grpc == "listening" && !strings.Contains(c.Vec.DID, "nuts") {
+					res = w.runSystem(c) // somebody else may have grabbed the probed port: decide on a second run with fresh ports
+				}
+				// a failure while STARTING engines (NATS / gRPC / sqlite under load, port races) is no verdict on the configuration:
+				// all guards of the vector's options sit in Load / Configure.  Try again; if it persists it is a driver problem.
+				for try := 0; try < 2 && !res.Accepted && (res.Phase == "start" || res.Phase == "migrate") && res.Error == ""; try++ {
+					time.Sleep(200 * time.Millisecond)
+					res = w.runSystem(c)
+				}
+				if !res.Accepted && (res.Phase == "start" || res.Phase == "migrate") && res.Error == "" {
+					res.Error = "engines did not start (environment): " + res.Err
+				}
 			case "core-url":
 				res = w.runCoreURL(c)
 			case "storage":
@@ -778,6 +790,9 @@ func TestDriver(t *testing.T) {
 				res = w.runCrypto(c)
 			case "network":
 				res = w.runNetwork(c)
+				if res.Accepted && res.Grpc == "listening" && !strings.Contains(c.Vec.DID, "nuts") {
+					res = w.runNetwork(c)
+				}
 			case "auth":
 				res = w.runAuth(c)
 			case "jsonld":
